@@ -40,6 +40,7 @@ Proof.
   destruct s; cbn [snext] in H.
   - (* Pbind *) brk H. inversion H; reflexivity.
   - (* Pmono *) brk H; inversion H; reflexivity.
+  - (* Pmono, articulate *) brk H; inversion H; reflexivity.
   - (* Pchain *) rewrite Hfix in H. brk H. inversion H; reflexivity.
   - (* Ppar *) brk H; inversion H; reflexivity.
   - (* Pdelta *) cbn [ret_wf] in Hw. destruct pending.
